@@ -167,8 +167,18 @@ def concretize(ex, st, napps):
             elif kind == 'HttpTransport':
                 herr = payload(ex, st, oc[2], ERRS.index('HttpTransport'), 0, 'http_request::Error')
                 kf = ex.child(st, herr, 0, 'http_request::ErrorKind')
-                user = dval(ex, st, ex.discr_of(st, kf).t == ex.src.variant_index('ErrorKind', 'User'))
-                step = {'err': 'user' if user == 1 else 'transport'}
+                # the class the path decided on, else any class consistent with it (plain transport preferred)
+                kd = ex.discr_of(st, kf).t
+                pick = None
+                for nm_ in ('Transport', 'User', 'Timeout'):
+                    if dval(ex, st, kd == ex.src.variant_index('ErrorKind', nm_)) == 1:
+                        pick = nm_
+                if pick is None:
+                    for nm_ in ('Transport', 'Timeout', 'User'):
+                        if ex.check(st, [kd == ex.src.variant_index('ErrorKind', nm_)]) == 'sat':
+                            pick = nm_
+                            break
+                step = {'err': (pick or 'Transport').lower()}
             else:
                 return None, 'unknown error kind'
         script['http'].append(step)
